@@ -1,7 +1,7 @@
 package gts
 
 // C04 — Rotate is a pure change of origin.  Location level with symbolic L:
-// Rotate applies loc.Expand(0,n).Normalize(L) with n already reduced to [0,L).
+// Rotate applies loc.Expand(-1,n).Normalize(L) with n already reduced to [0,L).
 
 func vRotMap(x, n, L int) int { return vIte(x+n < L, x+n, x+n-L) }
 
@@ -20,7 +20,7 @@ func vC04Loc(fam int, kinds int) {
 		}
 		full = vOr(full, a.e-a.s == L)
 	}
-	B := A.Expand(0, n).Normalize(L)
+	B := A.Expand(-1, n).Normalize(L) // what Rotate applies to every feature location
 	bs := vAtoms(B)
 	vCover("rotated")
 	vAssert("in-range", vInRange(bs, L))
@@ -60,13 +60,41 @@ func vC04Loc(fam int, kinds int) {
 			vAssert("outer-markers", vAnd(vAnd(first.p5 == a.p5, second.p3 == a.p3), vAnd(!first.p3, !second.p5)))
 		}
 	}
+	if vSameKinds(as, bs) {
+		// a site between two residues moves with them; g=0 and g=L both spell the origin site
+		// (parts correspond one to one when nothing was split or absorbed)
+		for k := range as {
+			if as[k].kind == vkBetween {
+				vAssert("site-moved", vSiteMod(bs[k].s, L) == vSiteMod(as[k].s+n, L))
+			}
+		}
+	}
 	vObserve("nb", len(bs))
 	vObserve("b0.s", bs[0].s)
 	vObserve("b0.e", bs[0].e)
 }
 
+// vSameKinds: the two atom lists have the same kinds position by position.
+func vSameKinds(a, b []vAtom) bool {
+	if len(a) != len(b) {
+		return false
+	}
+	for k := range a {
+		if a[k].kind != b[k].kind {
+			return false
+		}
+	}
+	return true
+}
+
+// vSiteMod reduces a site position in [0,2L] to [0,L): position L is the origin site 0.
+func vSiteMod(g, L int) int {
+	g = vIte(g >= L, g-L, g)
+	return vIte(g >= L, g-L, g)
+}
+
 //verif:harness prop=C04 quick=6 thorough=11
-//verif:bounds location level with symbolic L<=2^40: A.Expand(0,n).Normalize(L), 0<=n<L (Rotate's own reduction of n is checked at API level); quick families 0..5, thorough 0..10
+//verif:bounds location level with symbolic L<=2^40: A.Expand(-1,n).Normalize(L), 0<=n<L (Rotate's own reduction of n is checked at API level); quick families 0..5, thorough 0..10
 //verif:assume ambiguous spans do not cross the new origin (C04's quantifier); symbolic modulus encoded with a bounded quotient K=8 plus a discharged range obligation
 func VH_C04_rotate_loc() {
 	n := vFamS1
@@ -172,5 +200,19 @@ func VH_C04_rotate_api() {
 		}
 	}
 	vAssert("additive-coverage", vAnd(vCovS(t2, x, false) == vCovS(t1, x, false), vCovS(t2, x, true) == vCovS(t1, x, true)))
+	if vSameKinds(t1, t2) {
+		for k := range t1 {
+			if t1[k].kind == vkBetween {
+				vAssert("additive-sites", vSiteMod(t2[k].s, L) == vSiteMod(t1[k].s, L))
+			}
+		}
+	}
+	if vSameKinds(as, bs) {
+		for k := range as {
+			if as[k].kind == vkBetween {
+				vAssert("site-moved", vSiteMod(bs[k].s, L) == vMod(as[k].s+n, L))
+			}
+		}
+	}
 	vObserve("nb", len(bs))
 }
